@@ -217,7 +217,7 @@ impl Check for C03 {
             } else {
                 let np = d.nports() as u64;
                 let p = ch.choose(S_WORK, np) as usize;
-                match ch.choose(S_WORK, 6) {
+                match ch.choose(S_WORK, 7) {
                     0..=3 => {
                         let (event, bytes, w) = hostile_frame(ch, &d, p);
                         what = w;
@@ -241,6 +241,27 @@ impl Check for C03 {
                             }),
                             None => Ok(()),
                         }
+                    }
+                    6 => {
+                        // a crowd: valid Announces from more distinct masters than any record can hold
+                        // (8 foreign masters per port, 8 Announces per master), each up to three times
+                        what = "announce_crowd";
+                        let n = ch.range(S_WORK, 7, 20);
+                        let reps = ch.range(S_WORK, 1, 3);
+                        let base = d.w.seq() as u16;
+                        let mut frames = Vec::new();
+                        for r in 0..reps {
+                            for k in 0..n {
+                                let id = [0x30, 0, 0, 0, 0, 0, 1, k as u8];
+                                let gm = GmData::simple(id, 120 + k as u8);
+                                frames.push(announce_frame(Pid::new(id, 1), base.wrapping_add(r as u16), &gm, 0, 0, 0).encode());
+                            }
+                        }
+                        guarded(|| {
+                            for b in frames {
+                                d.w.host_call(0, p, HostCall::RxGeneral(Rc::new(b)), ch);
+                            }
+                        })
                     }
                     _ => {
                         // a valid Announce with boundary contents from the parent-to-be, to walk states
